@@ -560,9 +560,8 @@ Proof.
       * intros H; inversion H; subst. clear H.
         assert (H4 : shape (session_ x4) = shape (session_ x3) /\ s_pushed (session_ x4) = None /\
                      sess_frame (session_ x3) (session_ x4)).
-        { destruct (n_router n) as [rt|]; [|discriminate]. destruct (rt_wait rt) as [[[] tmo]|]; try discriminate.
-          dmatch_hyp Ebw; [discriminate|]. inversion Ebw; subst.
-          rewrite shape_log_event. simpl. repeat split; auto. }
+        { destruct (n_router n) as [rt|]; [|discriminate]. destruct (rt_wait rt) as [[[] tmo]|]; try discriminate; try (dmatch_hyp Ebw; [discriminate|]); inversion Ebw; subst.
+      all: (rewrite shape_log_event; simpl; repeat split; auto). }
         destruct H4 as (S4 & P4 & F4). split.
         -- apply VWaiting; [|reflexivity|exact P4|reflexivity].
            unfold with_session; cbn [session_]. rewrite shape_set_status.
@@ -1349,8 +1348,8 @@ Proof.
     destruct bw as [x4|] eqn:Ebw end.
   - intros H; inversion H; subst. eapply frame_trans; [exact F3|].
     assert (F4 : frame x3 x4).
-    { destruct (n_router n) as [rt|]; [|discriminate]. destruct (rt_wait rt) as [[[] tmo]|]; try discriminate.
-      dmatch_hyp Ebw; [discriminate|]. inversion Ebw; subst. repeat split. }
+    { destruct (n_router n) as [rt|]; [|discriminate]. destruct (rt_wait rt) as [[[] tmo]|]; try discriminate; try (dmatch_hyp Ebw; [discriminate|]); inversion Ebw; subst.
+      all: (repeat split). }
     destruct F4 as (?&?&?). repeat split; simpl; auto.
   - destruct (pick_node_exit a x3 ri n (length (r_path r0)) false []) as [x5 [e5 op5]| |] eqn:Epk; try discriminate.
     intros H; inversion H; subst. eapply frame_trans; [exact F3|].
